@@ -181,6 +181,7 @@ var interpretable = map[string]bool{
 	"internal/stringslite": true, "internal/bytealg": true, "iter": true, "math": true, "math/bits": true,
 	"internal/itoa": true, "strconv": true, "internal/godebug": false,
 	"github.com/go-openapi/jsonpointer": true,
+	"vendor/golang.org/x/net/http/httpguts": true, "vendor/golang.org/x/net/http/httpproxy": false,
 }
 
 // interpretableFuncs: single functions of otherwise non-interpreted packages.
